@@ -180,15 +180,18 @@ func NewWorld(cfg Config, r *Recorder, store core.Storage) (*World, error) {
 // Op is one call of the location API.
 type Op struct {
 	FailIn int // make the FailIn-th storage write of this operation fail (0: none)
-	Op     string
-	Loc    string
-	Id     string
-	Val    map[string]interface{}
-	Inh    bool
-	WK     string
-	RK     string
-	Flag   bool
-	Names  []string
+	// Refused: the storage back end itself is going to refuse a write of this operation (a key beyond
+	// Bolt's key size limit); judged like an injected failure: the operation has to report an error
+	Refused bool
+	Op      string
+	Loc     string
+	Id      string
+	Val     map[string]interface{}
+	Inh     bool
+	WK      string
+	RK      string
+	Flag    bool
+	Names   []string
 }
 
 type Res struct {
@@ -455,6 +458,7 @@ recorded:
 	if images == nil {
 		images = []interface{}{}
 	}
+	fired = fired || op.Refused
 
 	t := w.R.T
 	// expiry instants the specification computes from now + ttl
